@@ -16,6 +16,30 @@ from rex.constants import Async, Clock, Jitter, LogLevel, RealTimeFactor, Schedu
 from rex.node import BaseNode, Connection
 
 
+# Verification hooks (inactive unless REX_VERIF=1 and a harness installs `_verif_hook`).
+import os as _os  # noqa: E402
+
+_VERIF = _os.environ.get("REX_VERIF") == "1"
+_verif_hook = None  # Callable[[str, dict], None], set by a test harness
+
+
+def _verif_point(point: str, **info):
+    if _VERIF and _verif_hook is not None:
+        _verif_hook(point, **info)
+
+
+def _verif_wrap(owner: str, fn):
+    if not (_VERIF and _verif_hook is not None):
+        return fn
+
+    def _task(*args, **kwargs):
+        _verif_point("task.start", owner=owner, fn=getattr(fn, "__name__", str(fn)))
+        return fn(*args, **kwargs)
+
+    _task.__name__ = getattr(fn, "__name__", "task")
+    return _task
+
+
 class _AsyncNodeWrapper:
     def __init__(self, node: BaseNode):
         self.node = node
@@ -119,6 +143,8 @@ class _AsyncNodeWrapper:
         self.node.log(id=id, value=value, log_level=log_level)
 
     def _submit(self, fn, *args, stopping: bool = False, **kwargs):
+        _verif_point("node.submit", owner=self.node.name, fn=getattr(fn, "__name__", str(fn)))
+        fn = _verif_wrap(self.node.name, fn)
         with self._lock:
             if self._state in [Async.READY, Async.STARTING, Async.READY_TO_START, Async.RUNNING] or stopping:
                 f = self._executor.submit(fn, *args, **kwargs)
@@ -862,6 +888,9 @@ class _AsyncConnectionWrapper:
         )
 
     def _submit(self, fn, *args, stopping: bool = False, **kwargs):
+        _verif_owner = f"{self.connection.input_node.name}/{self.connection.output_node.name}"
+        _verif_point("conn.submit", owner=_verif_owner, fn=getattr(fn, "__name__", str(fn)))
+        fn = _verif_wrap(_verif_owner, fn)
         with self._lock:
             if self._state in [Async.READY, Async.RUNNING] or stopping:
                 f = self._executor.submit(fn, *args, **kwargs)
@@ -1304,6 +1333,7 @@ class _Synchronizer:
 
     def _async_step(self, step_state: base.StepState) -> Tuple[base.StepState, base.Output]:
         """Should not be jitted due to side-effects."""
+        _verif_point("sync.enter", owner=self._supervisor.node.name)
         self._f_act = Future()
         self._q_act.append(self._f_act)
 
@@ -1322,6 +1352,7 @@ class _Synchronizer:
             # future was published above, it found nothing to cancel: cancel here instead of waiting forever.
             if self._supervisor._state not in [Async.RUNNING]:
                 self._f_act.cancel()
+            _verif_point("sync.before_wait", owner=self._supervisor.node.name)
             try:
                 step_state, output = self._f_act.result()
                 # print(f"[GET] _step: seq={step_state.seq}, ts={step_state.ts:.2f}")
@@ -1601,10 +1632,12 @@ class AsyncGraph:
 
         # Stop all nodes
         fs = [n._stop(timeout=timeout) for n in self._async_nodes.values()]
+        _verif_point("stop.after_flip", owner=self.supervisor.name)
 
         # Initiate stop (this unblocks the root's step, that is waiting for an action).
         if len(self._synchronizer.action) > 0:
             self._synchronizer.action[-1].cancel()
+        _verif_point("stop.after_cancel", owner=self.supervisor.name)
 
         # Wait for all nodes to stop
         [f.result() for f in fs]  # Wait for all nodes to stop
